@@ -158,6 +158,19 @@ func CheckC12(run *ev.Run) {
 			validChecked++
 			if lab.validBoth(s) {
 				validOK++
+				// tie of the hypothesis of total_no_panic: what the reference validator accepts must be `validB` in the model
+				if model.VA == nil || model.VB == nil || !*model.VA || !*model.VB {
+					run.Broken("corr:C12:validity-hypothesis", "a document accepted by the reference validator is outside the validity hypothesis (Spec.validB) of theorem total_no_panic",
+						s.Replay(map[string]interface{}{"model_valid_a": model.VA, "model_valid_b": model.VB}))
+				} else {
+					st["hypothesis-holds-on-valid"]++
+				}
+			}
+		}
+		if model.VA != nil && model.VB != nil && *model.VA && *model.VB {
+			st["model-valid-pair"]++
+			if model.R == "panic" {
+				run.Broken("corr:C12:theorem-vs-driver", "the driver reports a panic on a pair satisfying the hypothesis of total_no_panic", s.Replay(nil))
 			}
 		}
 		// property oracle on the real implementation
